@@ -113,6 +113,14 @@ func ReadJournal(path string) (idx int, label string, ok bool) {
 
 func (c *Ctx) Count(key string) { c.res.Counters[key]++ }
 
+// FirstViolation returns the first violation recorded so far (nil if none).
+func (c *Ctx) FirstViolation() *Violation {
+	if len(c.res.Violations) == 0 {
+		return nil
+	}
+	return &c.res.Violations[0]
+}
+
 // CounterValue reads a counter of this worker.
 func (c *Ctx) CounterValue(key string) int64 { return c.res.Counters[key] }
 
